@@ -54,8 +54,8 @@ pub fn run() {
                     }
                 }
                 ["eventrace", rounds] => {
-                    // the queue (capacity 1000) is filled to one below its capacity, then two writers write at the same moment: one of
-                    // them finds it full. Repeated; reports the first panic of a writer.
+                    // the queue (capacity 1000) is filled to one below its capacity, then eight writers write at the same moment: all
+                    // but one find it full. Repeated; reports the first panic of a writer.
                     let rounds: usize = rounds.parse().unwrap();
                     let mut first: Option<String> = None;
                     for _ in 0..rounds {
@@ -64,8 +64,8 @@ pub fn run() {
                         for _ in 0..999 {
                             event_logger::write_event(LoggerLevel::Info, "fill".to_string(), "verif", "verif", "none");
                         }
-                        let barrier = std::sync::Arc::new(std::sync::Barrier::new(2));
-                        let hs: Vec<_> = (0..2).map(|i| {
+                        let barrier = std::sync::Arc::new(std::sync::Barrier::new(8));
+                        let hs: Vec<_> = (0..8).map(|i| {
                             let b = barrier.clone();
                             std::thread::spawn(move || {
                                 b.wait();
